@@ -410,7 +410,19 @@ def random_list(rng, s):
         if with_saenger:
             v = g3d.SAENGER.get((a.one_letter_name + b.one_letter_name, lw))
             sa = Saenger[v] if v else None
-        return BasePair(Residue(a.label, a.auth), Residue(b.label, b.auth), LeontisWesthof[lw], sa)
+        return BasePair(ident(a), ident(b), LeontisWesthof[lw], sa)
+
+    idmode = rng.choice(["full", "full", "mixed", "auth-only"])
+
+    def ident(r):
+        # external tools name residues by author identity only, the library's own
+        # annotation by label + author identity: lists may mix both
+        if idmode == "full" or r.auth is None or r.label is None:
+            return Residue(r.label, r.auth)
+        if idmode == "auth-only":
+            return Residue(None, r.auth)
+        k = rng.random()
+        return Residue(r.label, r.auth) if k < 0.4 else (Residue(None, r.auth) if k < 0.8 else Residue(r.label, None))
 
     out = []
     npairs = rng.randint(1, 12)
